@@ -174,8 +174,16 @@ func (c *Conv) validateShapes(x, kernel, bias tensor.Tensor) error {
 		return ops.ErrInvalidInput("dilations, strides and pads must have a value for every spatial dimension", c)
 	}
 
-	if len(c.kernelShape) != 0 && !tensor.Shape(c.kernelShape).Eq(kernel.Shape()[nNonSpatialDims:]) {
-		return ops.ErrInvalidInput("kernel_shape must be equal to the shape of the kernel", c)
+	if len(c.kernelShape) != 0 {
+		if len(c.kernelShape) != nSpatialDims {
+			return ops.ErrInvalidInput("kernel_shape must be equal to the shape of the kernel", c)
+		}
+
+		for i, size := range c.kernelShape {
+			if size != kernel.Shape()[nNonSpatialDims+i] {
+				return ops.ErrInvalidInput("kernel_shape must be equal to the shape of the kernel", c)
+			}
+		}
 	}
 
 	return nil
